@@ -19,6 +19,8 @@ FRAMES = {
     "text": B(wire.TEXT, b"data"),
     "ping": B(wire.PING, b"srv"),
     "binary": B(wire.BINARY, b"\x00"),
+    # exactly one receive buffer (65536 bytes) in one read, nothing behind it
+    "binary_64k": B(wire.BINARY, b"k" * (65536 - 4)),
 }
 
 
@@ -46,6 +48,9 @@ def scenario_of(case):
                       "ping": ["ping", "6c"]}[what]
             reactions.append({"when": ["time_after_ready", (case["close_at"] + off) * GRID + t_reply], "do": [action]})
     copts = {"poll": case["p"], "ping_rate": case["r"], "ping_timeout": case["t"], "close_timeout": case["c"]}
+    if case.get("auto_pong") is not None:
+        # the remaining connect() option; it only says whether the server's Pings are answered
+        copts["auto_pong"] = case["auto_pong"]
     return build.scenario(script, connect_opts=copts, reactions=reactions, horizon=horizon + 100.0)
 
 
@@ -176,7 +181,7 @@ class C15(Prop):
     id = "C15"
     level = "exploration"
     rule = ("virtual-clock histories: poll p, ping_rate r (incl. 0), ping_timeout t (incl. None/0), close_timeout c (incl. None/0) "
-            "from dyadic grids x 0-15 arrivals (Pong/Ping/data) at generated times on a 1/8 s grid (optionally exactly on multiples "
+            "from dyadic grids, auto_pong on/off x 0-15 arrivals (Pong/Ping/data) at generated times on a 1/8 s grid (optionally exactly on multiples "
             "of r or p, or one grid step before/after a deadline) x optional close() at the first event at/after a drawn time, then optionally further close() calls / "
             "sends while the closing handshake is pending x "
             "optional server Close reply at a drawn time x handshake reply delayed by a drawn time x EOF at a horizon. Oracle: "
@@ -202,7 +207,7 @@ class C15(Prop):
                 anchors += [int(t / GRID), int((t + p) / GRID)]
             near = st.builds(lambda a, d: max(0, a + d), st.sampled_from(anchors), st.integers(-1, 1))
             when = st.one_of(st.integers(0, horizon), near, near)
-            arrivals = draw(st.lists(st.tuples(when, st.sampled_from(["pong", "pong", "pong", "text", "ping", "binary"])).map(list),
+            arrivals = draw(st.lists(st.tuples(when, st.sampled_from(["pong", "pong", "pong", "text", "ping", "binary", "binary_64k"])).map(list),
                                      max_size=15))
             close_at = draw(st.one_of(st.none(), st.integers(0, horizon), near))
             reply_at = None
@@ -216,7 +221,7 @@ class C15(Prop):
                     ["close", "close", "close_default", "send", "ping"])).map(list), max_size=4))
             return {"p": p, "r": r, "t": t, "c": c, "horizon": horizon, "arrivals": arrivals,
                     "close_at": close_at, "reply_at": reply_at, "t_reply": draw(st.sampled_from([0, 0, 3, 10])),
-                    "while_closing": while_closing, "prelude": draw(gen.prelude(6)), "companion": draw(gen.companion(6))}
+                    "while_closing": while_closing, "auto_pong": draw(st.sampled_from([None, True, False])), "prelude": draw(gen.prelude(6)), "companion": draw(gen.companion(6))}
         return case()
 
     def enumerations(self, tier):
@@ -230,9 +235,10 @@ class C15(Prop):
                                 arr = [] if kind != 1 else [[k * 8, "pong"] for k in range(1, 12)]
                                 # kind 3: close(), then close() again every second while the handshake is pending
                                 again = [[8 * k, "close"] for k in range(1, 12)] if kind == 3 else []
-                                yield {"p": p, "r": r, "t": t, "c": c, "horizon": 120, "arrivals": arr,
-                                       "close_at": 24 if kind >= 2 else None, "reply_at": None, "t_reply": 3,
-                                       "while_closing": again}
+                                for ap in ((None, False) if kind == 1 else (None,)):
+                                    yield {"p": p, "r": r, "t": t, "c": c, "horizon": 120, "arrivals": arr,
+                                           "close_at": 24 if kind >= 2 else None, "reply_at": None, "t_reply": 3,
+                                           "while_closing": again, "auto_pong": ap}
         return [Enumeration("parameter_grid", grid, exhaustive=True)]
 
     def run_case(self, case):
